@@ -277,6 +277,11 @@ ResetLivelockSig ==
      IN /\ li < LastIdx(node[l]) /\ li >= FirstIdx(node[l])
         /\ node[l].log[li - FirstIdx(node[l]) + 1].term # Last(fl).term
         /\ f \in DOMAIN node[l].nextIdx /\ node[l].nextIdx[f] >= li + 1
+        \* ... and what the leader has beyond that index does not fit into one append_entries message
+        /\ LET after == {k \in 1..Len(node[l].log) : node[l].log[k].idx > li}
+               RECURSIVE Sum(_)
+               Sum(S) == IF S = {} THEN 0 ELSE LET k == CHOOSE x \in S : TRUE IN node[l].log[k].sz + Sum(S \ {k})
+           IN IF UseBatch THEN Sum(after) > BatchBytes ELSE Cardinality(after) >= 2
 
 StateViolations ==
      (IF ApplyAgreement THEN {} ELSE {"C01.ApplyAgreement"})
